@@ -69,6 +69,15 @@ class ElemSq:
             tot = tot + ncm.fro2(p)
         return tot
 
+    def count(self):
+        n = 0
+        for p in self.parts:
+            n = n + p.rows * p.cols
+        return n
+
+    def mean(self):
+        return self.sum() / self.count()
+
 
 class RMat:
     pytypes = None
@@ -102,6 +111,27 @@ class RMat:
 
     def copy(self):
         return RMat(self.p, self.storage)
+
+    def astype(self, t):
+        return RMat(self.p, self.storage)
+
+    @property
+    def size(self):
+        return self.p.rows * self.p.cols
+
+    def max(self):
+        return self._extreme("max")
+
+    def min(self):
+        return self._extreme("min")
+
+    def _extreme(self, what):
+        # max / min entry of an abstract matrix: an uninterpreted real per (matrix, kind) with min <= max
+        key = f"{what}[{self.p!r}]"
+        v = SReal.var(key)
+        lo, hi = SReal.var(f"min[{self.p!r}]"), SReal.var(f"max[{self.p!r}]")
+        cur().assume(lo <= hi, base=True)
+        return v
 
     def toarray(self):
         if self.storage != "csr":
